@@ -1174,11 +1174,48 @@ def leafid_class(case):
     if case.get("kind") != "extract" or case.get("alias"):
         return False
     nl = len(case["arrays"])
+
+    def leaves_under(i):
+        """distinct leaves below value i in left-to-right occurrence order"""
+        if i < nl:
+            return [i]
+        out = []
+        for j in case["stages"][i - nl]["in"]:
+            for l in leaves_under(j):
+                if l not in out:
+                    out.append(l)
+        return out
     for s in case["stages"]:
         fx = FX[s["f"]]
-        nv = sum(1 for i in s["in"] if i >= nl)
-        if (fx.arity >= 2 and fx.group != "ufunc" and nv >= 1) or nv >= 2:
+        views = [i for i in s["in"] if i >= nl]
+        if fx.arity >= 2 and fx.group != "ufunc" and len(views) >= 1:
             return True
+        if len(views) >= 2:
+            # positions are local to each sub-view: two view operands collide when some position holds different leaves
+            # (views derived from the same leaves in the same order - add(tanh(x), exp(x)) - number them consistently)
+            lists = [leaves_under(i) for i in views]
+            for a in lists:
+                for b in lists:
+                    if any(x != y for x, y in zip(a, b)) or len(a) != len(b):
+                        return True
+            if any(i < nl for i in s["in"]):
+                return True
+            # the same leaf as a direct operand of two different operations below this node: two occurrences, numbered alike -> one node
+            seen_stage = {}
+            stack = list(views)
+            done = set()
+            while stack:
+                v = stack.pop()
+                if v in done:
+                    continue
+                done.add(v)
+                for j in case["stages"][v - nl]["in"]:
+                    if j < nl:
+                        seen_stage.setdefault(j, set()).add(v)
+                    else:
+                        stack.append(j)
+            if any(len(vs) >= 2 for vs in seen_stage.values()):
+                return True
     return False
 
 
@@ -1201,7 +1238,7 @@ def render_block(rid, case, parts=None, rnd=None):
     if k == "compose":
         return render_compose(rid, case, rnd=random.Random(chash(case)))
     if k == "extract":
-        return render_extract(rid, case, parts if parts is not None else ("graph", "apply"))
+        return render_extract(rid, case, parts if parts is not None else tuple(case.get("parts") or ("graph", "apply")))
     raise KeyError(k)
 
 
@@ -1268,6 +1305,8 @@ def run_blocks(items, group=3):
     for cfg, it, err in failed:
         if it["case"]["kind"] == "extract":
             for parts in (("apply",), ("graph",), ()):
+                if parts and it["case"].get("parts") and parts[0] not in it["case"]["parts"]:
+                    continue
                 retry.append((cfg, it, parts, err))
         else:
             out[it["rid"]] = {"status": "rejected_compile", "err": (err or "")[:400]}
@@ -1603,6 +1642,11 @@ def fixed_compose_cases():
     add([F("add"), F("sum", ["0"], axis=0)], [A([2, 3]), A([3], 7)], ["cs_fb", "dynamic_ndarray"])
     add([F("add"), C("dup")], [A([2, 3])])
     add([F("subtract"), C("swap")], [A([2, 3]), A([3], 20)])
+    # a combinator applied while further operands are still pending behind its own
+    add([F("add"), F("subtract"), C("swap")], [A([2, 3]), A([3], 20), A([2, 1], 100)])
+    add([F("subtract"), F("multiply"), C("dup")], [A([2, 3], 2), A([3], 7)])
+    add([F("multiply"), F("add"), F("subtract"), C("dig2")], [A([2], 1), A([2], 10), A([2], 100), A([2], 1000)], ["raw", "fixed_ndarray", "std_array", "cs_fb"])
+    add([F("maximum"), F("add"), C("bury1")], [A([2, 2], 1), A([2], 30), A([2, 2], 5)], ["raw", "raw", "raw"])
     add([F("subtract"), F("divide"), F("reduce_add", ["0"], axis=0), C("bury2")], [A([3, 2], 1, "f64"), A([2, 3, 2], 1, "f64"), A([1], 12, "f64")], ["fs_fb", "fs_fb", "fs_fb"])
     add([F("fabs"), F("square"), F("negative")], [A([2, 2], -3)])
     add([F("transpose", [ia([1, 0])], axes=[1, 0]), F("reshape", [ia([2, 3])], shape=[2, 3]), F("flatten")], [A([3, 2])], ["hs_hb"])
@@ -1637,6 +1681,13 @@ def fixed_extract_cases(th):
     add([A([2, 3])], [("add", [0, 0], [], {})], alias=True)
     add([A([2, 3]), A([2, 3], 10)], [("subtract", [0, 1], [], {}), ("square", [2], [], {}), ("sum", [3], ["0"], {"axis": 0})], ["ds_db", "ds_db"])
     add([A([2, 3]), A([3], 10), A([2, 1], 2)], [("add", [0, 1], [], {}), ("multiply", [3, 2], [], {}), ("flatten", [4], [], {}), ("negative", [5], [], {})], ["cs_fb", "raw", "fixed_ndarray"])
+    # re-convergent graphs: one shared node feeds two different derived views joined by one binary ufunc (graph part only is judged:
+    # these are outside the left spine)
+    add([A([2, 3], 1, "f64"), A([3], 2, "f64")], [("multiply", [0, 1], [], {}), ("tanh", [2], [], {}), ("exp", [2], [], {}), ("add", [3, 4], [], {})])
+    add([A([2, 3], 1, "f64")], [("exp", [0], [], {}), ("tanh", [0], [], {}), ("subtract", [1, 2], [], {})], ["ds_db"])
+    add([A([2, 3], 1, "f64"), A([3], 2, "f64")], [("multiply", [0, 1], [], {}), ("tanh", [2], [], {}), ("exp", [2], [], {}), ("add", [3, 4], [], {}), ("tanh", [5], [], {})],
+        ["fs_fb", "fixed_ndarray"])
+    add([A([2, 2], 1, "f64")], [("sin", [0], [], {}), ("square", [1], [], {}), ("negative", [1], [], {}), ("multiply", [2, 3], [], {})])
     # non-left-spine nestings
     add([A([2, 3]), A([2, 3], 10)], [("square", [1], [], {}), ("subtract", [0, 2], [], {})])
     add([A([2, 3]), A([2, 3], 10)], [("square", [0], [], {}), ("negative", [1], [], {}), ("subtract", [2, 3], [], {})])
@@ -1732,8 +1783,9 @@ class C14(e2.ProgenProp):
                 case = c2
             if case["kind"] == "extract":
                 if spine and not is_left_spine(case):
-                    excluded[F_SPINE] = excluded.get(F_SPINE, 0) + 1
-                    return
+                    # the extraction round trip of this class is a known finding; its compute graph is still judged (graph part only)
+                    excluded[F_SPINE + " (apply part; graph still judged)"] = excluded.get(F_SPINE + " (apply part; graph still judged)", 0) + 1
+                    case = dict(case, parts=["graph"])
                 if nosib and same_sig_pairs(case):
                     excluded[F_SIBLING] = excluded.get(F_SIBLING, 0) + 1
                     return
